@@ -83,3 +83,9 @@ func DealK256(ac accessstructures.Monotone, seed int64, label string) map[ID]*K2
 	}
 	return out
 }
+
+// KeySeed maps an execution seed to the seed of everything that is FIXED across "parallel sessions": session
+// contexts (session id, pairwise seeds) and previously dealt key material. Seeds s and s+1000k share those and
+// differ only in the parties' fresh randomness, which is what a replay from a parallel session needs: the replayed
+// message is a valid message of the same session id produced with other randomness.
+func KeySeed(seed int64) int64 { return seed % 1000 }
